@@ -1,6 +1,12 @@
 (* C13 correspondence cases: what dukebox::merge::merge answered, to be compared with the model *)
 From FB Require Export C13.Model Base.Run.
 
+(* the opaque components of a plain field / method / class as the harness prints them by name (its
+   interner gives "None" the number 1 and "[]" the number 2 in every case) *)
+Definition dF : list N := [1;1;2;2;2;2].
+Definition dM : list N := [1;1;1;2;2;2;1;1;2].
+Definition dC : list N := [1;1;1;1;2;2;1;1;1;1;1;2].
+
 Definition class_eqb (a b : aclass) : bool :=
   N.eqb (c_version a) (c_version b) && N.eqb (c_access a) (c_access b)
   && str_eqb (c_name a) (c_name b) && oeqb str_eqb (c_super a) (c_super b)
@@ -9,7 +15,7 @@ Definition class_eqb (a b : aclass) : bool :=
   && Bool.eqb (c_depr a) (c_depr b) && Bool.eqb (c_synth a) (c_synth b)
   && oeqb (leqb inner_eqb) (c_inner a) (c_inner b)
   && leqb ann_eqb (c_vis a) (c_vis b) && leqb ann_eqb (c_inv a) (c_inv b)
-  && oeqb (leqb str_eqb) (c_perm a) (c_perm b) && N.eqb (c_rec a) (c_rec b) && N.eqb (c_rest a) (c_rest b).
+  && oeqb (leqb str_eqb) (c_perm a) (c_perm b) && N.eqb (c_rec a) (c_rec b) && leqb N.eqb (c_rest a) (c_rest b).
 
 Definition ocontent_eqb (a b : ocontent) : bool :=
   match a, b with
@@ -67,6 +73,13 @@ Fixpoint nodup_lists (alpha : list N) (n : nat) : list (list N) :=
   | S n' => [] :: flat_map (fun x => map (cons x) (nodup_lists (filter (fun y => negb (N.eqb y x)) alpha) n')) alpha
   end.
 
+(* all lists over [alpha] of length <= n, duplicates allowed, in a fixed order *)
+Fixpoint all_lists (alpha : list N) (n : nat) : list (list N) :=
+  match n with
+  | O => [[]]
+  | S n' => [] :: flat_map (fun x => map (cons x) (all_lists alpha n')) alpha
+  end.
+
 Definition all_pairs {A} (l : list A) : list (A * A) := flat_map (fun a => map (fun b => (a, b)) l) l.
 
 Inductive case :=
@@ -77,8 +90,17 @@ Inductive case :=
 | CMpoSweep (alpha : list N) (n : N) (rs : list (list N))
     (* every ordered pair of duplicate-free lists over [alpha] up to length [n], enumerated by
        the model; [rs] are the implementation's merged interface lists in the same order *)
-| CMerge (c s : jar) (r : out (list oentry)).
+| CMpoSweepDup (alpha : list N) (n : N) (rs : list (list N))
+    (* the same over ALL lists up to length [n], duplicates allowed (outside the property's domain,
+       inside C13_mpo_any_lists) *)
+| CMerge (c s : jar) (r : out (list oentry))
     (* dukebox::merge::merge(client, server) projected to the model's types *)
+| CLayout (cls fld mth : list str)
+    (* the fields of duke's ClassFile / Field / Method the harness projects one by one into c_rest /
+       m_rest, in its order: must be the rows of the regenerated tables the model keeps opaque *)
+| CNames (names : list (str * (bool * bool * N))).
+    (* entry names with what the harness' own reading of the rules says: is a signature file, is a
+       bundled server library, kind of a zip entry of that name (0 directory, 1 class, 2 other) *)
 
 Definition check (c : case) : bool :=
   match c with
@@ -86,5 +108,18 @@ Definition check (c : case) : bool :=
   | CMpoSweep alpha n rs =>
       leqb (leqb N.eqb)
         (map (fun p => mpo N.eqb (fst p) (snd p)) (all_pairs (nodup_lists alpha (N.to_nat n)))) rs
+  | CMpoSweepDup alpha n rs =>
+      leqb (leqb N.eqb)
+        (map (fun p => mpo N.eqb (fst p) (snd p)) (all_pairs (all_lists alpha (N.to_nat n)))) rs
   | CMerge c s r => outcome_ok c s (merge_jar c s) r
+  | CLayout cls fld mth =>
+      leqb str_eqb (map (fun p => fname_str (fst p)) class_rest_table) cls
+      && leqb str_eqb (map (fun p => fname_str (fst p)) field_rest_table) fld
+      && leqb str_eqb (map (fun p => fname_str (fst p)) method_rest_table) mth
+  | CNames l =>
+      forallb (fun p =>
+        match p with (n, (sg, lb, k)) =>
+          Bool.eqb (is_signature n) sg && Bool.eqb (is_server_library n) lb
+          && N.eqb (match zip_kind n with KDir => 0 | KClass => 1 | KOther => 2 end) k
+        end) l
   end.
